@@ -894,6 +894,9 @@ def write_ndjson(path, events):
 LOOP_IPS = ["127.0.0.1", "127.0.0.2", "127.0.0.3"]
 
 
+LAPSE_S = 1.0
+
+
 class TcpFlow:
     """One scripted TCP flow. The script is a list of steps executed in order by one coroutine that owns both the
     application socket and (once the server has dialled) the target socket; two reader tasks log what arrives.
@@ -902,6 +905,9 @@ class TcpFlow:
             ("app_close", how) ("tgt_close", how)   how in fin | close | rst
             ("wait_end", side)                      wait (bounded) until `side` (app | tgt) has observed an end
             ("wait_dial",)
+            ("throttle", side, seconds)             from now on the reader of `side` sleeps that long after every recv (slow reader:
+                                                    the chain behind it fills up, the relay works under back-pressure)
+            ("hold",)                               keep both sockets as they are and stay silent until the batch releases the flow
     reach: "ok" | "refused" (nothing listens at the requested port) | "unresolvable" (a name that does not resolve)
     """
 
@@ -931,6 +937,11 @@ class TcpFlow:
         self.rtask = {"app": None, "tgt": None}
         self.atask = None
         self.preface = b""
+        self.last_t = None              # monotonic time of this flow's latest logged event (Lapse detection)
+        self.lapsed = False
+        self.throttle = {"app": 0.0, "tgt": 0.0}   # seconds slept by the reader of that side after each recv (slow reader)
+        self.hold = None                # (arrived: asyncio.Event, release: asyncio.Event) given by run_batch for ("hold",)
+        self.small_rcvbuf = any(s[0] == "throttle" for s in steps)
         total_up = sum(s[1] for s in steps if s[0] == "up") + 4096
         total_down = sum(s[1] for s in steps if s[0] == "down") + 4096
         self.prf = {"up": Prf(seed, "f%d-up" % fid, total_up), "down": Prf(seed, "f%d-down" % fid, total_down)}
@@ -938,6 +949,14 @@ class TcpFlow:
     # -- logging with coalescing of consecutive arrivals of the same flow
     def _ev(self, ev, **kw):
         kw["f"] = self.f
+        # Lapse (RelayAbs): one side has closed and nothing at all was written, read or observed on this flow for LAPSE_S
+        # seconds (half of the relay's close grace): from here on a half-closed side may lose the rest of its answer
+        now = time.monotonic()
+        if (self.last_t is not None and not self.lapsed and now - self.last_t >= LAPSE_S
+                and (self.closed["app"] or self.closed["tgt"])):
+            self.lapsed = True
+            self.log.add("Lapse", f=self.f, gap=round(now - self.last_t, 2))
+        self.last_t = now
         if ev in ("TgtGot", "AppGot"):
             for e in reversed(self.log.events):
                 if e.get("f") == self.f:
@@ -955,6 +974,8 @@ class TcpFlow:
         if self.reach == "refused":
             s.close()               # the port was free a moment ago and nothing listens on it now
             return
+        if self.small_rcvbuf:
+            s.setsockopt(socket.SOL_SOCKET, socket.SO_RCVBUF, 1 << 16)
         s.listen(16)
         s.setblocking(False)
         self.lsock = s
@@ -997,6 +1018,8 @@ class TcpFlow:
                 self.got[direction] += len(data)
                 self._ev(ev, n=len(data), ok=bool(ok))
                 self.progress.set()
+                if self.throttle[side]:
+                    await asyncio.sleep(self.throttle[side])
         finally:
             self.end_ev[side].set()
             self.progress.set()
@@ -1075,6 +1098,11 @@ class TcpFlow:
                 except (ConnectionError, OSError, asyncio.TimeoutError, asyncio.IncompleteReadError) as e:
                     self._ev("Refused", why=type(e).__name__)
                     return
+                if self.small_rcvbuf:
+                    try:
+                        self.app.sock.setsockopt(socket.SOL_SOCKET, socket.SO_RCVBUF, 1 << 16)
+                    except OSError:
+                        pass
                 self._ev("Open", kind=self.kind, want=self.f, reach=self.reach)
                 self.rtask["app"] = asyncio.ensure_future(self._reader("app", self.app, "down", "AppGot"))
                 if self.preface:
@@ -1122,6 +1150,13 @@ class TcpFlow:
                         pass
                 elif op == "wait_dial":
                     await self._wait_dial(dial_cap)
+                elif op == "throttle":
+                    self.throttle[st[1]] = st[2]
+                elif op == "hold":
+                    if self.hold is not None:
+                        self.hold[0].set()
+                        await self.hold[1].wait()
+                        self._ev("Released")
                 elif op == "cut":
                     if self.link is not None and not self.link.cut:
                         self._ev("Fault", how=st[1])
